@@ -31,6 +31,7 @@ type JS struct {
 	Addl    *JS
 	AddlAny bool
 	Ref     string // emit as $ref to this component (the component holds the same schema)
+	Alias   int    // the component Ref is itself only a $ref, through this many components, to the one that holds the schema
 }
 
 type JM struct {
@@ -86,19 +87,29 @@ func (s *JS) Model() string {
 // $ref'd sub-schemas need.
 func (s *JS) Dialect(comps *[]dialect.Prop) *dialect.Schema {
 	if s.Ref != "" {
-		found := false
-		for _, c := range *comps {
-			if c.Name == s.Ref {
-				found = true
+		has := func(n string) bool {
+			for _, c := range *comps {
+				if c.Name == n {
+					return true
+				}
+			}
+			return false
+		}
+		name := s.Ref
+		if !has(name) {
+			// Ref -> RefT -> RefTT ... -> the component that holds the schema
+			for i := 0; i < s.Alias; i++ {
+				*comps = append(*comps, dialect.Prop{Name: name, Schema: &dialect.Schema{Ref: name + "T"}})
+				name += "T"
 			}
 		}
-		if !found {
+		if !has(name) {
 			cp := *s
-			cp.Ref = ""
-			*comps = append(*comps, dialect.Prop{Name: s.Ref, Schema: nil})
+			cp.Ref, cp.Alias = "", 0
+			*comps = append(*comps, dialect.Prop{Name: name, Schema: nil})
 			sc := cp.Dialect(comps)
 			for i := range *comps {
-				if (*comps)[i].Name == s.Ref {
+				if (*comps)[i].Name == name {
 					(*comps)[i].Schema = sc
 				}
 			}
@@ -191,13 +202,22 @@ func (s *JS) Dialect(comps *[]dialect.Prop) *dialect.Schema {
 // schema generation
 
 type jgen struct {
-	noNullAny bool
+	// refAllPrims: every primitive property/item (that is not wrapped in nullable) is a component used by $ref
+	refAllPrims bool
+	cycle       int
+	noNullAny   bool
 	rng       *rand.Rand
 	next      int
 }
 
 func (g *jgen) prim() *JS {
-	switch g.rng.Intn(9) {
+	pick := g.rng.Intn(9)
+	if g.refAllPrims {
+		// every primitive kind in turn, so that a reference-rich document has them all
+		pick = []int{5, 0, 2, 3, 4, 6, 7, 5, 1}[g.cycle%9]
+		g.cycle++
+	}
+	switch pick {
 	case 0, 1:
 		return &JS{Kind: "str"}
 	case 2:
@@ -225,24 +245,45 @@ func (g *jgen) value(depth int) *JS {
 		if g.rng.Intn(4) == 0 && p.Kind != "any" {
 			return &JS{Kind: "null", Inner: p}
 		}
-		if g.rng.Intn(8) == 0 && p.Kind != "any" {
+		if p.Kind != "any" && (g.rng.Intn(8) == 0 || g.refAllPrims) {
 			// a component of a primitive type, used by reference
-			p.Ref = g.name()
+			if g.refAllPrims {
+				p.Ref = fmt.Sprintf("R%s%d", strings.Title(p.Kind), p.Bits)
+			} else {
+				p.Ref = g.name()
+			}
+			p.Alias = g.alias()
 		}
 		return p
 	case r < 6:
 		it := g.value(depth - 1)
 		if it.Kind == "obj" && it.Ref == "" {
 			it.Ref = g.name()
+			it.Alias = g.alias()
 		}
-		return &JS{Kind: "arr", Inner: it}
+		a := &JS{Kind: "arr", Inner: it}
+		if g.rng.Intn(6) == 0 {
+			// an array component, used by reference
+			a.Ref = g.name()
+			a.Alias = g.alias()
+		}
+		return a
 	default:
 		o := g.object(depth-1, false)
 		if g.rng.Intn(2) == 0 {
 			o.Ref = g.name()
+			o.Alias = g.alias()
 		}
 		return o
 	}
+}
+
+// alias: how many alias components ({$ref} only) stand between a reference and the component that holds the schema
+func (g *jgen) alias() int {
+	if g.rng.Intn(4) == 0 {
+		return 1 + g.rng.Intn(2)
+	}
+	return 0
 }
 
 func (g *jgen) name() string {
@@ -275,7 +316,7 @@ func (g *jgen) object(depth int, allowEmbed bool) *JS {
 		parts := 2 + g.rng.Intn(2)
 		for i := 0; i < parts; i++ {
 			if g.rng.Intn(2) == 0 {
-				e := &JS{Kind: "obj", Ref: g.name()}
+				e := &JS{Kind: "obj", Ref: g.name(), Alias: g.alias()}
 				e.Members = g.fields(depth, g.rng.Intn(3), used)
 				if g.rng.Intn(3) == 0 {
 					for j := range e.Members {
@@ -713,6 +754,7 @@ func jsonCases(c runCfg, prop string) ([]*scratch.Pkg, []string, map[string]inte
 			}
 			nm := fmt.Sprintf("T%d", ti)
 			s.Ref = nm
+			s.Alias = g.alias()
 			s.Dialect(&comps)
 			tops = append(tops, s)
 			names = append(names, nm)
